@@ -166,7 +166,7 @@ def generate_jaqal_block(statement, depth, indent_first_line):
         output += "<\n"
     else:
         output += "{\n"
-    for gate in statement:
+    for gate in iter_block_statements(statement):
         if isinstance(gate, GateStatement):
             output += generate_jaqal_gate(gate, depth + 1)
         elif isinstance(gate, LoopStatement):
@@ -179,6 +179,22 @@ def generate_jaqal_block(statement, depth, indent_first_line):
     else:
         output += "}\n"
     return output
+
+
+def iter_block_statements(block):
+    """Iterate over the statements of a block. Jaqal cannot express a plain
+    block directly inside a block of the same kind (as left behind by
+    e.g. expanding a subcircuit inside a loop), so the statements of such a
+    block are generated in place; this does not change their meaning."""
+    for statement in block:
+        if (
+            isinstance(statement, BlockStatement)
+            and not statement.subcircuit
+            and statement.parallel == block.parallel
+        ):
+            yield from iter_block_statements(statement)
+        else:
+            yield statement
 
 
 def generate_jaqal_value(val):
